@@ -75,6 +75,10 @@ def run_group(ctx, exe, scns, nranks, cores, tag, timeout=300, env=None, mpi_ext
             if not started:
                 if rc in (3, 4, 5):
                     raise RuntimeError("op_run input / initialisation error rc=%s: %s" % (rc, err[-300:]))
+                if k == 0 and rc != 0:
+                    # nothing of the code under test was reached (mpiexec / MPI_Init / parsec_init did not get to the
+                    # first scenario, seen on the overloaded machine): no evidence about the property either way
+                    raise RuntimeError("process group %s never reached its first scenario (rc=%s): %s" % (tag, rc, err[-300:]))
                 if rc != 0:
                     # every earlier scenario completed on every rank, then the group hung / died before this one was
                     # announced (between the `done` record and the next `scn` record: matrix and taskpool release, barrier)
@@ -156,11 +160,14 @@ def run(ctx):
     if not ctx.quick:
         known.append(("map-multi-vp", 1, 8, {"op": "map", "uplo": "full", "mt": 5, "nt": 4, "mb": 2, "P": 1, "Q": 1},
                       {"HWLOC_SYNTHETIC": "pack:4 core:2 pu:1", "PARSEC_MCA_runtime_vpmap": "hwloc"}))
-    kres = {}
+    kres, kerr = {}, []
 
     def bg(i, rep):
         key, nr, cores, s, env = known[i]
-        kres[(i, rep)] = run_group(ctx, exe, [s], nr, cores, "known%d%s" % (i, rep), timeout=40, env=env)
+        try:
+            kres[(i, rep)] = run_group(ctx, exe, [s], nr, cores, "known%d%s" % (i, rep), timeout=90, env=env)
+        except RuntimeError as e:
+            kerr.append(str(e))
     th = [threading.Thread(target=bg, args=(i, rep)) for i in range(len(known)) for rep in ("a", "b")]
     for t in th:
         t.start()
@@ -195,6 +202,8 @@ def run(ctx):
         ctx.violation("operator taskpool run not explained by Operators.tla (tile missed / visited twice / wrong data / "
                       "did not complete): %s%s" % (json.dumps(mis) + " " if mis else "", json.dumps(f.describe())[:1500]),
                       {"events": f.execution, "detail": f.describe()})
+    if kerr:
+        raise RuntimeError("; ".join(kerr))
     for i, (key, nr, cores, s, env) in enumerate(known):
         bad = []
         for rep in ("a", "b"):
